@@ -18,6 +18,8 @@ structure InvI (s : State) : Prop where
   /-- every object is registered at the location it lives in (so ids are unique) -/
   objReg : ∀ l o, objAt s l = some o → s.where_ o.id = some l
   freshObj : ∀ b, s.nblk ≤ b → (s.blk b).obj = none ∧ (s.blk b).live = false
+  /-- every id handed out was constructed exactly once, no other id ever -/
+  ctorOnce : ∀ id, s.ccnt id = if id < s.nextId then 1 else 0
 
 /-! ### `fail`, `emit`: only `err` / `log` change -/
 
@@ -29,6 +31,7 @@ variable (s : State) (m : String) (e : Ev)
 @[simp] theorem fail_nblk : (fail s m).nblk = s.nblk := by cases h : s.err <;> simp [fail, h]
 @[simp] theorem fail_env : (fail s m).env = s.env := by cases h : s.err <;> simp [fail, h]
 @[simp] theorem fail_nextId : (fail s m).nextId = s.nextId := by cases h : s.err <;> simp [fail, h]
+@[simp] theorem fail_ccnt : (fail s m).ccnt = s.ccnt := by cases h : s.err <;> simp [fail, h]
 @[simp] theorem fail_dcnt : (fail s m).dcnt = s.dcnt := by cases h : s.err <;> simp [fail, h]
 @[simp] theorem fail_where : (fail s m).where_ = s.where_ := by cases h : s.err <;> simp [fail, h]
 @[simp] theorem emit_cfg : (emit s e).cfg = s.cfg := rfl
@@ -37,6 +40,7 @@ variable (s : State) (m : String) (e : Ev)
 @[simp] theorem emit_nblk : (emit s e).nblk = s.nblk := rfl
 @[simp] theorem emit_env : (emit s e).env = s.env := rfl
 @[simp] theorem emit_nextId : (emit s e).nextId = s.nextId := rfl
+@[simp] theorem emit_ccnt : (emit s e).ccnt = s.ccnt := rfl
 @[simp] theorem emit_dcnt : (emit s e).dcnt = s.dcnt := rfl
 @[simp] theorem emit_where : (emit s e).where_ = s.where_ := rfl
 @[simp] theorem emit_err : (emit s e).err = s.err := rfl
@@ -51,20 +55,23 @@ theorem objAt_congr {s s' : State} (h1 : s'.wr = s.wr) (h2 : s'.blk = s.blk) (h3
 
 theorem invI_same {s s' : State} (h : InvI s) (ho : ∀ l, objAt s' l = objAt s l)
     (hw : s'.where_ = s.where_) (hd : s'.dcnt = s.dcnt) (hn : s'.nextId = s.nextId)
+    (hc : s'.ccnt = s.ccnt)
     (hf : ∀ b, s'.nblk ≤ b → (s'.blk b).obj = none ∧ (s'.blk b).live = false) : InvI s' := by
-  obtain ⟨a, b, c, _⟩ := h
+  obtain ⟨a, b, c, _, cc⟩ := h
   constructor
   · intro id l hl; rw [hw] at hl; rw [hn, hd, ho]; exact a id l hl
   · intro id hl; rw [hw] at hl; rw [hn, hd]; exact b id hl
   · intro l o hl; rw [ho] at hl; rw [hw]; exact c l o hl
   · exact hf
+  · intro id; rw [hc, hn]; exact cc id
 
 theorem invI_construct {s s' : State} (h : InvI s) (l : Loc) (v t : Nat) (hl : objAt s l = none)
     (ho : ∀ l', objAt s' l' = if l' = l then some ⟨s.nextId, v, t⟩ else objAt s l')
     (hw : s'.where_ = upd s.where_ s.nextId (some l)) (hd : s'.dcnt = s.dcnt)
     (hn : s'.nextId = s.nextId + 1)
+    (hc : s'.ccnt = upd s.ccnt s.nextId (s.ccnt s.nextId + 1))
     (hf : ∀ b, s'.nblk ≤ b → (s'.blk b).obj = none ∧ (s'.blk b).live = false) : InvI s' := by
-  obtain ⟨a, b, c, _⟩ := h
+  obtain ⟨a, b, c, _, cc⟩ := h
   have hnone : s.where_ s.nextId = none := by
     cases hq : s.where_ s.nextId with
     | none => rfl
@@ -102,13 +109,27 @@ theorem invI_construct {s s' : State} (h : InvI s) (l : Loc) (v t : Nat) (hl : o
       have hne : o.id ≠ s.nextId := by omega
       simp [upd, hne, hq]
   · exact hf
+  · intro id
+    rw [hc, hn]; simp only [upd]
+    have c1 := cc id
+    have c2 := cc s.nextId
+    simp only [Nat.lt_irrefl, if_false] at c2
+    split
+    · rename_i e; subst e; rw [c2]; simp
+    · rename_i e
+      rw [c1]
+      by_cases hlt : id < s.nextId
+      · have : id < s.nextId + 1 := by omega
+        simp [hlt, this]
+      · have : ¬ id < s.nextId + 1 := by omega
+        simp [hlt, this]
 
 theorem invI_destroy {s s' : State} (h : InvI s) (l : Loc) (o : Obj) (hl : objAt s l = some o)
     (ho : ∀ l', objAt s' l' = if l' = l then none else objAt s l')
     (hw : s'.where_ = upd s.where_ o.id none) (hd : s'.dcnt = upd s.dcnt o.id (s.dcnt o.id + 1))
-    (hn : s'.nextId = s.nextId)
+    (hn : s'.nextId = s.nextId) (hc : s'.ccnt = s.ccnt)
     (hf : ∀ b, s'.nblk ≤ b → (s'.blk b).obj = none ∧ (s'.blk b).live = false) : InvI s' := by
-  obtain ⟨a, b, c, _⟩ := h
+  obtain ⟨a, b, c, _, cc⟩ := h
   have hreg := c l o hl
   obtain ⟨q1, q2, _⟩ := a _ _ hreg
   constructor
@@ -138,12 +159,14 @@ theorem invI_destroy {s s' : State} (h : InvI s) (l : Loc) (o : Obj) (hl : objAt
         intro e; rw [e, hreg] at hq; cases hq; exact hne rfl
       simp [upd, this, hq]
   · exact hf
+  · intro id; rw [hc, hn]; exact cc id
 
 theorem invI_setVal {s s' : State} (h : InvI s) (l : Loc) (o o' : Obj) (hl : objAt s l = some o)
     (hid : o'.id = o.id) (ho : ∀ l', objAt s' l' = if l' = l then some o' else objAt s l')
     (hw : s'.where_ = s.where_) (hd : s'.dcnt = s.dcnt) (hn : s'.nextId = s.nextId)
+    (hc : s'.ccnt = s.ccnt)
     (hf : ∀ b, s'.nblk ≤ b → (s'.blk b).obj = none ∧ (s'.blk b).live = false) : InvI s' := by
-  obtain ⟨a, b, c, _⟩ := h
+  obtain ⟨a, b, c, _, cc⟩ := h
   constructor
   · intro id l' hl'
     rw [hw] at hl'; rw [hn, hd, ho]
@@ -159,6 +182,7 @@ theorem invI_setVal {s s' : State} (h : InvI s) (l : Loc) (o o' : Obj) (hl : obj
     · rename_i e; subst e; cases hl'; rw [hid]; exact c _ _ hl
     · exact c l' o2 hl'
   · exact hf
+  · intro id; rw [hc, hn]; exact cc id
 
 /-! ### `objAt` after the state-changing primitives -/
 
@@ -223,7 +247,8 @@ theorem wr_some_of_objAt {s : State} {l : Loc} {o : Obj} (h : objAt s l = some o
 /-- `setObj` keeps every field but `wr` / `blk` / `env`. -/
 theorem setObj_fields (s : State) (l : Loc) (o : Option Obj) :
     (setObj s l o).where_ = s.where_ ∧ (setObj s l o).dcnt = s.dcnt ∧
-    (setObj s l o).nextId = s.nextId ∧ (setObj s l o).nblk = s.nblk ∧ (setObj s l o).cfg = s.cfg := by
+    (setObj s l o).nextId = s.nextId ∧ (setObj s l o).nblk = s.nblk ∧ (setObj s l o).cfg = s.cfg ∧
+    (setObj s l o).ccnt = s.ccnt := by
   cases l with
   | buf i =>
     simp only [setObj, modW]
@@ -255,22 +280,22 @@ theorem fresh_setObj {s : State} (h : InvI s) {l : Loc} {o : Option Obj}
 /-! ### Every primitive preserves `InvI` -/
 
 theorem invI_fail {s : State} (h : InvI s) (m : String) : InvI (fail s m) :=
-  invI_same h (objAt_congr (by simp) (by simp) (by simp)) (by simp) (by simp) (by simp)
+  invI_same h (objAt_congr (by simp) (by simp) (by simp)) (by simp) (by simp) (by simp) (by simp)
     (by simpa using h.freshObj)
 
 theorem invI_emit {s : State} (h : InvI s) (e : Ev) : InvI (emit s e) :=
-  invI_same h (objAt_congr rfl rfl rfl) rfl rfl rfl h.freshObj
+  invI_same h (objAt_congr rfl rfl rfl) rfl rfl rfl rfl h.freshObj
 
 theorem modW_fields (s : State) (i : Nat) (f : Wrapper → Wrapper) :
     (modW s i f).where_ = s.where_ ∧ (modW s i f).dcnt = s.dcnt ∧
     (modW s i f).nextId = s.nextId ∧ (modW s i f).nblk = s.nblk ∧ (modW s i f).blk = s.blk ∧
-    (modW s i f).cfg = s.cfg ∧ (modW s i f).env = s.env := by
+    (modW s i f).cfg = s.cfg ∧ (modW s i f).env = s.env ∧ (modW s i f).ccnt = s.ccnt := by
   simp only [modW]; cases s.wr i <;> simp
 
 theorem invI_modW {s : State} (h : InvI s) (i : Nat) (f : Wrapper → Wrapper)
     (hf : ∀ w, (f w).bufObj = w.bufObj) : InvI (modW s i f) := by
-  obtain ⟨a, b, c, d, e, _, _⟩ := modW_fields s i f
-  exact invI_same h (objAt_modW hf) a b c (by rw [d, e]; exact h.freshObj)
+  obtain ⟨a, b, c, d, e, _, _, g⟩ := modW_fields s i f
+  exact invI_same h (objAt_modW hf) a b c g (by rw [d, e]; exact h.freshObj)
 
 theorem invI_constructAt {s : State} (h : InvI s) (l : Loc) (v t : Nat) (ev : Nat → Ev) :
     InvI (constructAt s l v t ev) := by
@@ -288,8 +313,8 @@ theorem invI_constructAt {s : State} (h : InvI s) (l : Loc) (v t : Nat) (ev : Na
         | some o => simp [hq] at hn
       have hwr : ∀ i, l = .buf i → (s.wr i).isSome = true := by
         intro i e; subst e; simpa [usable] using hu'
-      obtain ⟨f1, f2, f3, f4, _⟩ := setObj_fields s l (some ⟨s.nextId, v, t⟩)
-      refine invI_construct h l v t hl ?_ ?_ ?_ ?_ ?_
+      obtain ⟨f1, f2, f3, f4, _, f5⟩ := setObj_fields s l (some ⟨s.nextId, v, t⟩)
+      refine invI_construct h l v t hl ?_ ?_ ?_ ?_ ?_ ?_
       · intro l'
         rw [← objAt_setObj hwr]
         exact objAt_congr rfl rfl rfl l'
@@ -297,6 +322,8 @@ theorem invI_constructAt {s : State} (h : InvI s) (l : Loc) (v t : Nat) (ev : Na
         rw [f1]
       · exact f2
       · rfl
+      · show upd (setObj s l _).ccnt _ _ = _
+        rw [f5]
       · have := fresh_setObj h (l := l) (o := some ⟨s.nextId, v, t⟩) (by
           intro b e; subst e
           left
@@ -311,8 +338,8 @@ theorem invI_destroyAt {s : State} (h : InvI s) (l : Loc) : InvI (destroyAt s l)
   split
   · exact invI_fail h _
   · rename_i o hl
-    obtain ⟨f1, f2, f3, f4, _⟩ := setObj_fields s l none
-    refine invI_destroy h l o hl ?_ ?_ ?_ ?_ ?_
+    obtain ⟨f1, f2, f3, f4, _, f5⟩ := setObj_fields s l none
+    refine invI_destroy h l o hl ?_ ?_ ?_ ?_ ?_ ?_
     · intro l'
       rw [← objAt_setObj (wr_some_of_objAt hl)]
       exact objAt_congr rfl rfl rfl l'
@@ -321,13 +348,14 @@ theorem invI_destroyAt {s : State} (h : InvI s) (l : Loc) : InvI (destroyAt s l)
     · show upd (setObj s l none).dcnt _ _ = _
       rw [f2]
     · exact f3
+    · exact f5
     · exact fresh_setObj h (by intro b _; right; rfl)
 
 /-- overwrite the value of a live object (same id) -/
 theorem invI_setObjVal {s : State} (h : InvI s) {l : Loc} {o : Obj} (hl : objAt s l = some o)
     (o' : Obj) (hid : o'.id = o.id) : InvI (setObj s l (some o')) := by
-  obtain ⟨f1, f2, f3, f4, _⟩ := setObj_fields s l (some o')
-  refine invI_setVal h l o o' hl hid (objAt_setObj (wr_some_of_objAt hl) _) f1 f2 f3 ?_
+  obtain ⟨f1, f2, f3, f4, _, f5⟩ := setObj_fields s l (some o')
+  refine invI_setVal h l o o' hl hid (objAt_setObj (wr_some_of_objAt hl) _) f1 f2 f3 f5 ?_
   apply fresh_setObj h
   intro b e; subst e; left
   cases Nat.lt_or_ge b s.nblk with
@@ -379,7 +407,7 @@ theorem invI_moveConstruct {s : State} (h : InvI s) (src dst : Option Loc) :
 
 theorem invI_heapAlloc {s : State} (h : InvI s) (a sz ow : Nat) : InvI (heapAlloc s a sz ow).1 := by
   simp only [heapAlloc]
-  refine invI_same h ?_ rfl rfl rfl ?_
+  refine invI_same h ?_ rfl rfl rfl rfl ?_
   · intro l
     cases l with
     | buf j => rfl
@@ -406,7 +434,7 @@ theorem invI_heapFree {s : State} (h : InvI s) (a : Nat) (p : Option Loc) : InvI
       · exact invI_fail h _
       · split
         · exact invI_fail h _
-        · refine invI_same h ?_ rfl rfl rfl ?_
+        · refine invI_same h ?_ rfl rfl rfl rfl ?_
           · intro l
             cases l with
             | buf j => rfl
@@ -453,7 +481,7 @@ theorem invI_steal {s : State} (h : InvI s) (i k : Nat) : InvI (steal s i k) := 
     k (fun w => { w with self := none }) (fun _ => rfl)
   split
   · rename_i b _
-    refine invI_same h2 ?_ rfl rfl rfl ?_
+    refine invI_same h2 ?_ rfl rfl rfl rfl ?_
     · intro l
       cases l with
       | buf j => rfl
@@ -517,7 +545,7 @@ theorem invI_doCopyAssign {s : State} (h : InvI s) (c : Bool) (i k : Nat) (thr :
 
 theorem invI_newW {s : State} (h : InvI s) {i : Nat} (hf : s.wr i = none) (a vt : Nat) :
     InvI (newW s i a vt) := by
-  refine invI_same h ?_ rfl rfl rfl h.freshObj
+  refine invI_same h ?_ rfl rfl rfl rfl h.freshObj
   intro l
   cases l with
   | buf j =>
@@ -534,7 +562,7 @@ theorem invI_dropW {s : State} (h : InvI s) {i : Nat}
   simp only
   have key : ∀ s1 : State, InvI s1 → s1.wr = s.wr → InvI { s1 with wr := upd s1.wr i none } := by
     intro s1 h1 e
-    refine invI_same h1 ?_ rfl rfl rfl h1.freshObj
+    refine invI_same h1 ?_ rfl rfl rfl rfl h1.freshObj
     intro l
     cases l with
     | buf j =>
